@@ -65,6 +65,20 @@ def case_exact(case):
                 r.true("simple kriging variance <= sill", bool(np.all(vt <= ref.sill * (1 + 1e-10))), info=vt.tolist(), **extra)
             # far away: simple kriging variance tends to the sill, estimate to the mean
             done += 1
+            # history on the used object: trend (and, for simple kriging, mean) re-assigned without a new
+            # set_condition - the conditions are processed with the present trend / mean at every call, so the
+            # values are still reproduced
+            if proc[2] == "none" and pinv == "pinv" and variant in ("Simple", "Ordinary", "Universal"):
+                k.trend = lambda *p: 0.7 - 0.2 * p[0] + 0.05 * p[-1]
+                f2, v2 = k(cp, **kw)
+                r.close("trend re-assigned on a used object: field at a conditioning location == conditioning value", f2, zz, rtol=1e-8, atol=tol, proc=list(proc), **extra)
+                if variant == "Simple":
+                    k.mean = 1.1
+                    f2, v2 = k(cp, **kw)
+                    r.close("mean re-assigned on a used object: field at a conditioning location == conditioning value", f2, zz, rtol=1e-8, atol=tol, proc=list(proc), **extra)
+                k.trend = None
+                f2, v2 = k(cp, **kw)
+                r.close("trend removed on a used object: field at a conditioning location == conditioning value", f2, zz, rtol=1e-8, atol=tol, proc=list(proc), **extra)
     # zero measurement error stated explicitly (scalar 0 / array of zeros) for a model with nugget, exact=False:
     # the values are reproduced (the variance at the stations is then the nugget, not 0)
     for cm in cerr_modes[1:]:
@@ -168,8 +182,10 @@ def run(chk):
                     continue
                 if cls == "Circular" and not (kind == "euclid" and sdim <= 2):
                     continue
-                for aniso in (False, True):
+                for aniso in (False, True, "zrot"):
                     if kind == "euclid" and sdim == 1 and aniso:
+                        continue
+                    if aniso == "zrot" and not (kind == "euclid" and sdim == 3 and cls == "Exponential" and variant in ("Universal", "UniversalCustom", "DriftExt", "GenericDrift", "Ordinary")):
                         continue
                     full = cls == "Exponential" and not aniso and (tier != "quick" or variant in ("Simple", "Ordinary"))
                     nmax = 5 if tier != "quick" or (sdim == 1 and kind == "euclid") else (3 if full else 4)
